@@ -243,6 +243,7 @@ fn build(case: &Case) -> Result<Option<Built>, Failure> {
         regime: Regime::Causal,
         with_reference: with_ref,
         twin: false,
+        side: 0,
     };
     let mut w = World::new(&setup).map_err(|e| Failure::new("setup-failed", e))?;
     let mut obs = NoObserver;
@@ -287,7 +288,7 @@ fn build(case: &Case) -> Result<Option<Built>, Failure> {
         S::Commit | S::CommitEvictingVictim => {
             let op = if case.scenario == S::CommitEvictingVictim {
                 // creator removes the victim: target selector over the creator's member list without itself
-                Op::Remove { m: sel(0), target: 0, ts: 1, apply: Apply::Echo }
+                Op::Remove { m: sel(0), target: 0, ts: 1, apply: Apply::Echo, extra: 0 }
             } else {
                 match case.commit_kind % 4 {
                     0 => Op::SelfUpdate { m: sel(0), ts: 1, apply: Apply::Echo },
